@@ -44,7 +44,8 @@ GB_CLASSES = ["north_up", "mirror_x", "mirror_y", "mirror_xy", "nonsquare", "rot
 
 # projected CRSs whose two axes point the same way (polar stereographic / UPS), northing-easting order, geographic
 # 3-D and compound CRSs: the axis bookkeeping (dimension names, units per axis) must still give two labelled axes
-UNUSUAL_CRS = ["epsg:3031", "epsg:3413", "epsg:5041", "epsg:5042", "epsg:3976", "epsg:2193", "epsg:4979", "EPSG:9518", "EPSG:7415"]
+UNUSUAL_CRS = ["epsg:3031", "epsg:3413", "epsg:5041", "epsg:5042", "epsg:3976", "epsg:2193", "epsg:4979", "EPSG:9518", "EPSG:7415",
+               "EPSG:4326+5773"]
 
 
 def spec_dims(spec):
